@@ -245,6 +245,7 @@ def monitor(reqs, replies, roles):
     sent = collections.defaultdict(bytes)
     next_id = collections.defaultdict(lambda: 1)
     inprog = collections.defaultdict(dict)   # operations in progress per session, tracked from API outcomes only
+    tail = collections.defaultdict(bytes)    # delivered bytes not yet forming a complete unit (independent framing)
 
     def viol(prop, key, what, i):
         v[prop].append({"key": key, "what": what, "step": i, "history": reqs[: i + 1]})
@@ -319,7 +320,16 @@ def monitor(reqs, replies, roles):
                         viol("C09", None, "the id inside the emitted bytes differs from the id returned", i)
                 except BaseException:  # noqa: BLE001
                     pass
-        if role == "client" and k == "receive" and before["state"] != "CLOSED" and not before.get("residue"):
+        tail_before = tail[nm]
+        if k == "receive":
+            import ber as _ber
+            buf = tail[nm] + bytes.fromhex(call["chunk"])
+            try:
+                _, pos, _ = _ber.count_frames(buf)
+            except Exception:  # noqa: BLE001
+                pos = 0
+            tail[nm] = buf[pos:] if ok == "msgs" else b""
+        if role == "client" and k == "receive" and before["state"] != "CLOSED" and not tail_before:
             single = q.get("_single")
             if single is not None:
                 is_resp = single["op"]["k"] in ("bindResp", "searchEntry", "searchDone", "searchRef", "extResp")
@@ -570,11 +580,12 @@ def run_histories(ctx, prop, n_hist, length, mode="mixed"):
         pa = [project(prop, drive.norm(x)) for x in a]
         pb = [project(prop, drive.norm(x)) for x in b]
         for i, (q, x, y) in enumerate(zip(clean, pa, pb)):
-            if isinstance(x, dict) and isinstance(y, dict) and "sess" in x and "sess" in y:
-                for kk in list(y["sess"].keys()):
-                    if x["sess"].get(kk) is None and kk not in ("state",):
-                        y["sess"].pop(kk, None)
-                        x["sess"].pop(kk, None)
+            for key in ("sess", "ok"):
+                if isinstance(x, dict) and isinstance(y, dict) and isinstance(x.get(key), dict) and isinstance(y.get(key), dict):
+                    for kk in list(y[key].keys()):
+                        if x[key].get(kk) is None and kk != "state":
+                            y[key].pop(kk, None)
+                            x[key].pop(kk, None)
             if x != y:
                 # locate the history and cut it at the diverging step
                 for (start, ln) in bounds:
